@@ -601,7 +601,9 @@ def rule_r3(repo, tier='quick'):
         for _once in (0,):
             for _once2 in (0,):
                 for _once3 in (0,):
-                    text = '%s/301001%s%sA12101%s' % (sub, slices[(n // 3) % len(slices)], sep2, sl)
+                    # the leading separator rotates over the three written ones and the implied '>' (wave 9, C15-23)
+                    sep1 = ('/', '>', '' if sub == '' else '>')[n % 3]   # a leading '.' is not grammatical: an attribute needs its element; the implied '>' only without a subset selector (as the reference recogniser of R4)
+                    text = '%s%s301001%s%sA12101%s' % (sub, sep1, slices[(n // 3) % len(slices)], sep2, sl)
                     r1 = do_parse(text, bare)
                     n += 1
                     if not r1.ok:
